@@ -328,7 +328,8 @@ func main() {
 	exact("Subprocess", "getCmd", "{returns.command.GetCmd(s.processMonitoring.ProcessContext())}")
 	// ---- Subprocess.stop
 	stopOuter := table("Subprocess.stop", must(findFunc(ex, "Subprocess", "stop"), "Subprocess.stop").Body.List, map[string]string{
-		"if!s.IsOn(){return}":                 "OIfNotOnReturn",
+		"if!s.IsOn(){return}": "OIfNotOnReturn",
+		"ifs.command==nil||s.messaging==nil{err=s.check()return}": "OIfUndefinedReturn",
 		"err=s.Check()":                       "OCheck",
 		"iferr!=nil{return}":                  "ORetIfErr",
 		"s.mu.Lock()":                         "OLock",
@@ -422,7 +423,7 @@ func main() {
 	// ---- Subprocess.check / command.Check: they may only look at the object (calls allowed: fmt.Errorf, the two Check
 	// methods of its parts); anything else (a look-up in the file system, the PATH, ...) can make stop() give up
 	checkPure := "true"
-	pureCalls := map[string]bool{"fmt.Errorf": true, "s.command.Check": true, "s.messaging.Check": true}
+	pureCalls := map[string]bool{"fmt.Errorf": true, "s.command.Check": true} // s.messaging.Check asks the loggers, which are not the object's
 	for _, fd := range []*ast.FuncDecl{must(findFunc(ex, "Subprocess", "check"), "Subprocess.check"), must(findFunc(cw, "command", "Check"), "command.Check")} {
 		ast.Inspect(fd.Body, func(n ast.Node) bool {
 			if c, ok := n.(*ast.CallExpr); ok && !pureCalls[norm(c.Fun)] {
@@ -437,9 +438,26 @@ func main() {
 	mo := parse(filepath.Join(dir, "monitoring.go"))
 	rpm := must(findFunc(mo, "subprocessMonitoring", "runProcessMonitoring"), "subprocessMonitoring.runProcessMonitoring")
 	var monBody []string
+	// subprocessMonitoring.Reset: a new cancellable context; it must not clear monitoringStopping
+	for _, st := range must(findFunc(mo, "subprocessMonitoring", "Reset"), "subprocessMonitoring.Reset").Body.List {
+		switch s := norm(st); s {
+		case "s.monitoringStopping.Store(false)":
+			monBody = append(monBody, "MResetClearsStopping")
+		case "subctx,cancelFunc:=context.WithCancel(s.parentCtx)", "s.cancellableCtx.Store(subctx)", "s.cancelStore.RegisterCancelFunction(cancelFunc)":
+		default:
+			die("subprocessMonitoring.Reset: statement outside the translated fragment: %s", s)
+		}
+	}
 	stmts := rpm.Body.List
-	if len(stmts) == 2 && norm(stmts[0]) == "s.monitoringOn.Store(true)" {
-		monBody = append(monBody, "MOnTrueSync") // set before the goroutine exists: IsOn() is true as soon as Start returns
+	for len(stmts) > 1 {
+		switch s := norm(stmts[0]); s {
+		case "s.monitoringOn.Store(true)":
+			monBody = append(monBody, "MOnTrueSync") // set before the goroutine exists: IsOn() is true as soon as Start returns
+		case "s.monitoringStopping.Store(false)":
+			monBody = append(monBody, "MLaunchClearsStopping") // only a new monitor ends the stopping phase of the previous one
+		default:
+			die("runProcessMonitoring: statement outside the translated fragment: %s", s)
+		}
 		stmts = stmts[1:]
 	}
 	if len(stmts) != 1 {
@@ -480,6 +498,7 @@ func main() {
 	}
 	exact2(mo, "subprocessMonitoring", "CancelSubprocess", "{s.monitoringStopping.Store(true)s.cancelStore.Cancel()}")
 	exact2(mo, "subprocessMonitoring", "IsOn", "{returns.monitoringOn.Load()}")
+	exact2(mo, "subprocessMonitoring", "RunMonitoring", "{timeoutCtx,cancel:=context.WithTimeout(s.parentCtx,time.Second)defercancel()fors.IsOn(){if!s.monitoringStopping.Load(){return}parallelisation.SleepWithContext(timeoutCtx,time.Millisecond)err:=parallelisation.DetermineContextError(timeoutCtx)iferr!=nil{return}}s.Reset()s.runProcessMonitoring(stopProcess)}")
 
 	var b strings.Builder
 	b.WriteString("(* GENERATED by translator-c05/cmd/facts2coq from utils/subprocess/{command_wrapper,command_wrapper_linux,command_wrapper_darwin,\n")
